@@ -38,3 +38,15 @@ pub open spec fn typed_post<T>(decoded: Result<DecodedMap>, pick: spec_fn(Decode
 pub open spec fn pick_regular(m: DecodedMap) -> Option<SourceMap> { match m { DecodedMap::Regular(sm) => Some(sm), _ => None } }
 pub open spec fn pick_index(m: DecodedMap) -> Option<SourceMapIndex> { match m { DecodedMap::Index(x) => Some(x), _ => None } }
 pub open spec fn pick_hermes(m: DecodedMap) -> Option<SourceMapHermes> { match m { DecodedMap::Hermes(x) => Some(x), _ => None } }
+/// C18: "the data URL the library produces is one the library itself decodes back": what decode_data_url makes of a URL written by to_data_url is what
+/// decode_slice makes of the JSON text of the map (given that the base64 reader inverts the base64 writer)
+//@ lemma_own_data_url_decodes_to_the_json_text [C18]
+pub proof fn lemma_own_data_url_decodes_to_the_json_text(sm: &SourceMap, url: Seq<char>, res: Result<DecodedMap>)
+    requires
+        data_url_payload(url) == Some(b64_enc_spec(json_text_of(sm))),
+        // decode_data_url's contract
+        match data_url_payload(url) { None => res is Err, Some(p) => match b64_spec(p) { None => res is Err, Some(bytes) => decode_post(bytes, res) } },
+    ensures decode_post(json_text_of(sm), res)
+{
+    axiom_b64_reader_inverts_writer(json_text_of(sm));
+}
